@@ -1037,7 +1037,7 @@ impl<N, E, S: BuildHasher, Ty: EdgeType, Null: Nullable<Wrapped = E>, Ix: IndexT
     {
         /*+*/proof { Null::default_law(); }
         let ghost mut done: Seq<usize> = Seq::empty();/*-*/
-        /*R:D11 for id in self.nodes.iter_ids() */ let mut __it = self.nodes.iter_ids(); let ghost all = __it.remaining(); loop 
+        /*R:D11 for id in */ let mut __it = /*-*/ self.nodes.iter_ids() /*R:D11 */; let ghost all = __it.remaining(); loop 
             invariant __it.obeys_prophetic_iter_laws(), __it.decrease() is Some,
                 all == done + __it.remaining(),
                 old(self).wf(), old(self).nodes.live(a.i()),
